@@ -80,6 +80,12 @@ impl HttpRig {
 
     /// GET `path`; returns (status, headers, body).  Err = no complete response (caller decides).
     pub fn get(&mut self, via: Via, path: &str) -> Result<(u16, String, Vec<u8>), String> {
+        self.get_hooked(via, path, &mut |_| {})
+    }
+
+    /// As `get`; `hook(round)` is called before every pump round, so that the harness can act as a
+    /// concurrent party (e.g. release a lock it holds) while the request is in flight.
+    pub fn get_hooked(&mut self, via: Via, path: &str, hook: &mut dyn FnMut(usize)) -> Result<(u16, String, Vec<u8>), String> {
         let req = format!("GET {path} HTTP/1.1\r\nHost: erbium\r\nConnection: close\r\n\r\n");
         enum S {
             T(TcpStream),
@@ -123,6 +129,7 @@ impl HttpRig {
         let mut tmp = vec![0u8; 1 << 16];
         let mut eof = false;
         for round in 0..200000 {
+            hook(round);
             self.pump(3);
             loop {
                 let r = match &mut s {
